@@ -2,8 +2,12 @@ package main
 
 import (
 	"fmt"
+	"os"
 	"runtime"
+	"strings"
 	"sync"
+	"sync/atomic"
+	"time"
 
 	"verif/internal/prng"
 	"verif/internal/sim"
@@ -90,17 +94,52 @@ func parallel(jobs []func()) {
 	}
 	close(ch)
 	var wg sync.WaitGroup
-	for w := 0; w < runtime.NumCPU(); w++ {
+	n := runtime.NumCPU()
+	started := make([]int64, n) // unix seconds at which worker w took its current job; 0 = idle
+	for w := 0; w < n; w++ {
 		wg.Add(1)
-		go func() {
+		go func(w int) {
 			defer wg.Done()
 			for j := range ch {
+				atomic.StoreInt64(&started[w], time.Now().Unix())
 				j()
+				atomic.StoreInt64(&started[w], 0)
 			}
-		}()
+		}(w)
 	}
+	// A scenario takes milliseconds. One that does not come back (a loop
+	// inside the library that makes no application call, so that the call
+	// budget never ends it) would keep this check running for ever: a
+	// generous wall-clock watchdog ends the process instead, as
+	// inconclusive - "does not return" is C11's to decide, on a logical
+	// criterion.
+	done := make(chan struct{})
+	go func() {
+		t := time.NewTicker(5 * time.Second)
+		defer t.Stop()
+		for {
+			select {
+			case <-done:
+				return
+			case <-t.C:
+				now := time.Now().Unix()
+				for w := range started {
+					if s := atomic.LoadInt64(&started[w]); s != 0 && now-s > watchdogSeconds {
+						buf := make([]byte, 1<<16)
+						buf = buf[:runtime.Stack(buf, true)]
+						fmt.Printf("INCONCLUSIVE: a scenario did not return within %d s (wall clock); goroutines: %s\n", watchdogSeconds, strings.ReplaceAll(string(buf), "\n", " / "))
+						os.Exit(2)
+					}
+				}
+			}
+		}
+	}()
 	wg.Wait()
+	close(done)
 }
+
+// watchdogSeconds bounds one job of parallel() in wall-clock time.
+const watchdogSeconds = 300
 
 func reportFindings(r *verdict.Run, sc *sim.Scenario, res *sim.Result, fs []finding) {
 	for _, f := range fs {
